@@ -219,6 +219,8 @@ pub enum ErrKind {
     Past,
     Io(String),
     Corruption,
+    /// the library call panicked (message, truncated)
+    Panic(String),
 }
 
 #[derive(Clone, Debug, PartialEq, Eq)]
@@ -253,8 +255,13 @@ impl Outcome {
             o => o.clone(),
         }
     }
+    /// An I/O error or a panic from a live call: outside the subject of most monitors
+    /// (they report it as inconclusive; C05 judges panics itself).
     pub fn is_io_err(&self) -> bool {
-        matches!(self, Outcome::Err(ErrKind::Io(_)))
+        matches!(self, Outcome::Err(ErrKind::Io(_)) | Outcome::Err(ErrKind::Panic(_)))
+    }
+    pub fn is_panic(&self) -> bool {
+        matches!(self, Outcome::Err(ErrKind::Panic(_)))
     }
     pub fn to_json(&self) -> Value {
         json!(format!("{:?}", self))
@@ -312,13 +319,17 @@ impl Sut {
         self.close(id);
         let dir = self.dir.clone();
         let pol = self.policy.to_policy();
-        let r = self.windowed(id, || MultiRecordLog::open_with_prefs(&dir, pol));
+        let r = self.windowed(id, || std::panic::catch_unwind(std::panic::AssertUnwindSafe(|| MultiRecordLog::open_with_prefs(&dir, pol))));
         match r {
-            Ok(l) => {
+            Ok(Ok(l)) => {
                 self.log = Some(l);
                 Ok(())
             }
-            Err(e) => Err(open_err_kind(&e)),
+            Ok(Err(e)) => Err(open_err_kind(&e)),
+            Err(p) => {
+                let msg = p.downcast_ref::<String>().cloned().or_else(|| p.downcast_ref::<&str>().map(|s| s.to_string())).unwrap_or_default();
+                Err(ErrKind::Panic(msg.chars().take(100).collect()))
+            }
         }
     }
 
@@ -341,7 +352,13 @@ impl Sut {
                     shim::pause(false);
                     shim::mark(shim::MARK_BEGIN, k as u64);
                 }
-                let out = apply_to_log(log, key, k, op);
+                let out = match std::panic::catch_unwind(std::panic::AssertUnwindSafe(|| apply_to_log(log, key, k, op))) {
+                    Ok(o) => o,
+                    Err(p) => {
+                        let msg = p.downcast_ref::<String>().cloned().or_else(|| p.downcast_ref::<&str>().map(|s| s.to_string())).unwrap_or_default();
+                        Outcome::Err(ErrKind::Panic(msg.chars().take(100).collect()))
+                    }
+                };
                 if trace {
                     shim::mark(shim::MARK_END, k as u64);
                     shim::pause(true);
